@@ -12,6 +12,7 @@ EXPLANATION = (
     "R3 flag provenance: at every insert_coin/remove_coin call site the flag is tip_906() of the owning state (or a parameter whose call sites pass that). "
     "R4 activation: next_unsealed runs the count initialisation exactly when the new state has TIP-906 and the old one does not; it visits every old entry and increments its covenant's count."
     " R3 treats a call of any other activation predicate (tip_901(), tip_909(), ...) as a wrong flag. R4 reads the per-entry step of the migration in a `for` loop or in a closure handed to for_each. Imports C15.R1 (the synthesized withdrawal coin is a fresh id only because exactly one output is admitted) and the activation table C06.R5."
+    " R1 also reads coin_count: no entry ⇔ 0, an entry decodes to its count."
 )
 NOT_DECIDED = ["equality of counts with the number of coins over whole histories (arithmetic over histories)",
                "that a coin overwritten by a pool rewrite keeps its covenant hash (true today by reading; not a rule)"]
